@@ -165,6 +165,12 @@ def rarray(values):
 def _convert_elem(e, dt):
     """numpy casting of one element to real dtype dt, symbolically."""
     k = dt.kind
+    from . import sstr as _sstr
+    if isinstance(e, _sstr.SStr):
+        if k in 'iu':
+            return _py_int_to_bv(_sstr.to_int(e), dt)
+        if k == 'f':
+            return R(core._frac(_sstr.to_float(e)))
     if k == 'f':
         if isinstance(e, R):
             return e
@@ -233,6 +239,8 @@ def zeros(shape, dtype=float, **kw):
     if not core.active():
         return _np.zeros(shape, dtype=dtype, **kw)
     dt, symbolic = _resolve_dtype(dtype)
+    if dt is not None and dt.names is not None:
+        return SymRec(shape, dt)
     if symbolic or (dt.kind == 'f' and _mode() == 'exact'):
         return _fill(shape, _zero_of(dt, getattr(dtype, 'rep', None)))
     if isinstance(shape, (Z, tuple, list)):
@@ -939,7 +947,7 @@ class SymRec(object):
             fdt = dt.fields[name][0]
             sub = fdt.shape
             base = fdt.base
-            fields[name] = _fill(tuple(shape) + tuple(sub), _zero_of(base) if base.kind in 'fiub' else None)
+            fields[name] = _fill(tuple(shape) + tuple(sub), _zero_of(base) if base.kind in 'fiub' else (b'' if base.kind == 'S' else ''))
         object.__setattr__(self, '_fields', fields)
 
     @property
@@ -1012,6 +1020,13 @@ class SymRec(object):
             self._store(key, val)
             return
         raise Unsupported('row assignment into a record stand-in')
+
+    def view(self, *a, **k):
+        return self
+
+    @property
+    def ndim(self):
+        return len(self._shape)
 
     def copy(self):
         out = SymRec.__new__(SymRec)
